@@ -23,7 +23,7 @@ public:
             phase_ = 1; idx_ = 0; block_ = (n + 1) / 2;
         }
         while (phase_ == 1) {                       // zero one aligned block
-            if (block_ == 0) { phase_ = 2; idx_ = 0; break; }
+            if (block_ == 0) { phase_ = 2; idx_ = 0; dblock_ = std::min(n / 2, (size_t) 16); break; }
             while (idx_ * block_ < n) {
                 size_t lo = idx_ * block_, hi = std::min(n, lo + block_);
                 idx_++;
@@ -37,9 +37,22 @@ public:
             block_ = block_ == 1 ? 0 : (block_ + 1) / 2;
             idx_ = 0;
         }
-        while (phase_ == 2) {                       // smaller element values
+        while (phase_ == 2) {                       // delete one aligned block (later choices shift left)
+            if (dblock_ == 0) { phase_ = 3; idx_ = 0; break; }
+            if (idx_ * dblock_ < n) {
+                size_t lo = idx_ * dblock_, hi = std::min(n, lo + dblock_);
+                idx_++;
+                if (hi - lo == n) continue;
+                std::vector<uint32_t> v(base_.begin(), base_.begin() + (long) lo);
+                v.insert(v.end(), base_.begin() + (long) hi, base_.end());
+                return v;
+            }
+            dblock_ = dblock_ == 1 ? 0 : (dblock_ + 1) / 2;
+            idx_ = 0;
+        }
+        while (phase_ == 3) {                       // smaller element values
             // halving / low byte only: decrementing uniform 32-bit values would take 2^32 steps
-            if (idx_ >= 2 * n) { phase_ = 3; break; }
+            if (idx_ >= 2 * n) { phase_ = 4; break; }
             size_t i = idx_ / 2; bool half = (idx_ % 2) == 0;
             idx_++;
             if (base_[i] <= 1) continue;
@@ -54,7 +67,7 @@ private:
     std::vector<uint32_t> prefix(size_t k) { return std::vector<uint32_t>(base_.begin(), base_.begin() + (long) k); }
     std::vector<uint32_t> base_;
     int phase_ = 0;
-    size_t idx_ = 0, block_ = 0;
+    size_t idx_ = 0, block_ = 0, dblock_ = 0;
 };
 
 // The number of choices grows with rapidcheck's size (a quarter of maxChoices at size 0, all of
@@ -73,6 +86,8 @@ static rc::Gen<std::vector<uint32_t>> choiceGen(int maxChoices) {
     });
 }
 
+long g_shrinkBudget = 30000;
+
 void runRandom(const Opt &o, Ev &ev, const std::string &sub, int maxChoices, int nCases,
                const std::function<std::string(Src &, Ev &)> &body) {
     using namespace rc;
@@ -85,7 +100,7 @@ void runRandom(const Opt &o, Ev &ev, const std::string &sub, int maxChoices, int
     std::string lastMsg;
     bool any = false;
     auto gen = choiceGen(maxChoices);
-    long shrinkBudget = 30000;   // property executions spent on shrinking; afterwards candidates are declined
+    long shrinkBudget = g_shrinkBudget;   // property executions spent on shrinking; afterwards candidates are declined
     auto prop = [&]() {
         std::vector<uint32_t> v = *gen;
         if (any && --shrinkBudget < 0) return;
